@@ -362,13 +362,13 @@ def shape(s):
     return re.sub(r'(.)\1+', r'\1+', s.replace('\r\n', 'C').replace('\n', 'L').replace(' ', 's').replace('\t', 't'))[:6]
 
 
-def check_set(ctx, text, auto_claim, idx, side, new, fails, lock=None):
-    """One assignment on a freshly parsed document."""
-    d = Doc(text, auto_claim)
+def check_set(ctx, text, auto_claim, idx, side, new, fails, lock=None, d=None, rep=None):
+    """One assignment on a freshly parsed document (or, in a history, on the document as it stands)."""
+    d = d or Doc(text, auto_claim)
     path, m = d.nodes[idx]
     if not has_acc(m):
         return
-    rep = {'check': 'set', 'text': text, 'auto_claim': auto_claim, 'idx': idx, 'side': side, 'new': new}
+    rep = rep or {'check': 'set', 'text': text, 'auto_claim': auto_claim, 'idx': idx, 'side': side, 'new': new}
     toks, pos = d.toks, d.pos
     fi, li = pos[id(m.first_token)], pos[id(m.last_token)]
     attr = 'spacing_after' if side == 'a' else 'spacing_before'
@@ -410,6 +410,57 @@ def check_set(ctx, text, auto_claim, idx, side, new, fails, lock=None):
             fails.append(('C17:readback', who + f': reads back {back!r}', rep))
     if lock is not None:
         lock.add(f'W set {st} {fi + 1} {li + 1} {side} {enc_text(new)}', enc_post(toks, idxs, lo, hi, post), rep)
+
+
+def check_history(ctx, text, auto_claim, lf, steps, fails, gen=None):
+    """A history of assignments on ONE document whose store is cut into small blocks (load factor lf): every step is
+    judged by the single-assignment oracle against the document as it stood before the step, then every getter is
+    re-checked against the store.  `steps` is replayed when given, otherwise `gen(d)` yields (idx, side, new)."""
+    import session
+    session.set_lf(lf)
+    try:
+        try:
+            d = Doc(text, auto_claim)
+        except Exception:
+            ctx.count('doc:rejected')
+            return
+        done = []
+        n0 = len(fails)
+        it = iter(steps) if steps is not None else gen(d)
+        for idx, side, new in it:
+            done.append([idx, side, new])
+            rep = {'check': 'hist', 'text': text, 'auto_claim': auto_claim, 'lf': lf, 'steps': list(done)}
+            try:
+                check_set(ctx, text, auto_claim, idx, side, new, fails, d=d, rep=rep)
+                if len(fails) == n0:
+                    d.refresh()
+                    if len(done) % 8 == 0 or steps is not None:
+                        check_get(ctx, d, fails)
+                        for f in fails[n0:]:
+                            f[2].clear(); f[2].update(rep)
+            except Exception as e:
+                fails.append(('C17:history-raises', f'step {len(done)} ({side}, {new!r}) raised {type(e).__name__}: {str(e)[:100]}', rep))
+            if len(fails) > n0:
+                break
+        ctx.count('history:steps', len(done))
+    finally:
+        session.set_lf(None)
+
+
+def gen_history(ctx, n):
+    r = ctx.rng
+    def gen(d):
+        cand = [i for i, (p, m) in enumerate(d.nodes) if has_acc(m)]
+        strings = new_strings(r, len(FIXED) + 4)
+        # phases: widen a region, collapse another - blocks grow past 1.5x and neighbours shrink under half
+        for _ in range(n):
+            if not cand:
+                return
+            lo = r.randrange(len(cand))
+            grow = r.random() < 0.5
+            for i in cand[lo:lo + r.randrange(1, 12)]:
+                yield i, r.choice('ab'), (r.choice(['\n\n\n', '  \t  ', ' \n \n ', '\n\n\n\n']) if grow else r.choice(['', ' ', '\n', r.choice(strings)]))
+    return gen
 
 
 def check_totok(ctx, lock, n):
@@ -468,6 +519,11 @@ def _run(ctx, n_gen, n_corpus, sets_per_doc, with_model):
             check_set(ctx, text, ac, r.choice(cand), r.choice('ab'), r.choice(strings), fails, lock)
         if len(fails) > 40:
             break
+    for _ in range(ctx.scale(25, 400)):
+        check_history(ctx, docs.gen_file(r, r.choice((4, 8, 12))), r.random() < 0.7, r.choice((4, 5, 6, 8, 10, 16)), None, fails,
+                      gen=gen_history(ctx, ctx.scale(12, 20)))
+        if len(fails) > 40:
+            break
     _report(ctx, fails)
     if lock is not None:
         check_totok(ctx, lock, ctx.scale(400, 4000))
@@ -491,6 +547,8 @@ def replay(ctx, data):
         d = Doc(rep['text'], rep['auto_claim'])
         check_get(ctx, d, fails)
         check_sides(ctx, d, fails)
+    elif rep.get('check') == 'hist':
+        check_history(ctx, rep['text'], rep['auto_claim'], rep['lf'], [tuple(x) for x in rep['steps']], fails)
     elif rep.get('check') == 'totok':
         s = rep['s']
         return ''.join(t.raw_text for t in _sa._text_to_tokens(s)) == s or not _LANG.fullmatch(s)
